@@ -4,7 +4,6 @@ import (
 	"fmt"
 	"go/ast"
 	"go/token"
-	"go/types"
 	"sort"
 	"strings"
 
@@ -12,15 +11,15 @@ import (
 )
 
 type privAlloc struct {
-	ref string
-	el  types.Type
+	ref  string
+	arrs map[string]bool
 }
 
 func newEnc(w *World, f *ssa.Function, info *passInfo, opts *EncOpts) *enc {
 	e := &enc{w: w, f: f, key: funcKey(f), names: map[ssa.Value]string{}, heap: hstate{}, heapSort: map[string]string{}, ver: map[string]int{},
 		reach: map[*ssa.BasicBlock]string{}, heapAt: map[*ssa.BasicBlock]hstate{}, heapIn: map[*ssa.BasicBlock]hstate{}, locs: map[ssa.Value]loc{},
 		notes: map[string]int{}, declared: map[string]bool{}, ordCount: map[string]int{}, info: info, localAlloc: map[string]bool{},
-		assumptions: map[string]bool{}, callOrd: map[string]int{}, opts: opts, usedSpecs: map[string]bool{}}
+		assumptions: map[string]bool{}, callOrd: map[string]int{}, opts: opts, usedSpecs: map[string]bool{}, usedSites: map[string]bool{}}
 	e.rec = &passInfo{arrays: map[string]string{}, writes: map[ssa.Instruction][]string{}}
 	e.fc = w.CS.Funcs[e.key]
 	if e.fc != nil {
@@ -328,6 +327,28 @@ func (e *enc) resolveLocalAtEnd(name string, at *ssa.BasicBlock) (ssa.Value, boo
 	return e.resolveLocalAtEnd(name, at.Idom())
 }
 
+// resolveLocalBefore: the value of a local just before instruction idx of block at.
+func (e *enc) resolveLocalBefore(name string, at *ssa.BasicBlock, idx int) (ssa.Value, bool, bool) {
+	for i := idx - 1; i >= 0 && i < len(at.Instrs); i-- {
+		switch x := at.Instrs[i].(type) {
+		case *ssa.DebugRef:
+			if id, ok := x.Expr.(*ast.Ident); ok && id.Name == name {
+				return x.X, x.IsAddr, true
+			}
+		case *ssa.Phi:
+			if x.Comment == name {
+				return x, false, true
+			}
+		}
+	}
+	if at.Idom() != nil {
+		if v, a, ok := e.resolveLocalAtEnd(name, at.Idom()); ok {
+			return v, a, ok
+		}
+	}
+	return e.resolveLocal(name, e.f.Blocks[0])
+}
+
 func (e *enc) headerByOrdinal(n int) *ssa.BasicBlock {
 	for h, k := range e.headers {
 		if k == n {
@@ -598,6 +619,18 @@ func (e *enc) loopObligations() {
 
 // finish adds the axioms that mention uninterpreted spec functions used by this VC.
 func (e *enc) finish() {
+	if e.fc != nil {
+		if _, ok := e.fc.Opts["io-calls"]; ok {
+			o := e.add("frame", "io-scan", e.f.Pos(), "true", "true")
+			o.Struct = true
+			o.Note = "every static call of the function was compared with the allowed file/network functions"
+		}
+		for _, sc := range e.fc.Asserts {
+			if !e.usedSites[sc.Site] {
+				e.contractError(sc.Clause, fmt.Errorf("site %q does not exist in the function any more", sc.Site))
+			}
+		}
+	}
 	done := map[*Axiom]bool{}
 	for changed := true; changed; {
 		changed = false
